@@ -204,3 +204,50 @@ def build(db, f, depth=4):
 
 def member_functions(db, rec_q):
     return [f for f in db.funcs if f.get("record") == rec_q]
+
+
+def const_source_rule(chk, db, sigs, rule="SRC"):
+    """SRC: a member whose source parameter is a const lvalue reference to (an instance of) its own class template leaves the
+    source's lifetime state alone: it never uses a function-pointer slot whose derived signature destroys its *source*
+    operand (relocation). Slots are those found by slot_signatures(); uses are calls through the slot or the slot being
+    passed on as a value (delegating constructors)."""
+    destroying = {}
+    for (rec, field), variants in sigs.items():
+        for v in variants:
+            for kind, a, b in v:
+                if kind == "D" and a is not None and a >= 1:
+                    destroying.setdefault(field, set()).add(rec)
+    n = 0
+    if not destroying:
+        chk.analysis_broken("%s: no slot with a source-destroying signature derived (relocate slot vanished?)" % rule)
+        return 0
+    owners = set()
+    for f in db.funcs:
+        for x in astx.all_exprs(f):
+            if x.get("k") == "mem" and x.get("n") in destroying and f.get("record"):
+                owners.add(f["record"])
+    for f in db.funcs:
+        rec = f.get("record")
+        if rec not in owners or (f.get("body") is None and not f.get("inits")):
+            continue
+        base = rec.split("::")[-1].split("<")[0]
+        src = [p["n"] for p in f["params"] if base + "<" in p["ty"].replace(" ", "") or p["ty"].replace("const ", "").replace("&", "").strip() == base]
+        consts = [p["n"] for p in f["params"] if p["n"] in src and p["ty"].strip().startswith("const ") and p["ty"].strip().endswith("&")
+                  and not p["ty"].strip().endswith("&&")]
+        if not consts:
+            continue
+        n += 1
+        construct = astx.sig(f)
+        chk.instance(rule)
+        bad = None
+        for x in astx.all_exprs(f):
+            if x.get("k") == "mem" and x.get("n") in destroying:
+                bad = x
+                break
+        chk.obligation(rule, construct, bad is None)
+        if bad is not None:
+            chk.violation(rule, construct, "const-source-relocated",
+                          "%s: `%s` is used in a member whose source `%s` is a const reference; the slot's signature %s destroys its source operand" % (
+                              astx.loc(f, bad), astx.show(bad, 40), consts[0],
+                              [list(t) for v in sigs[(sorted(destroying[bad["n"]])[0], bad["n"])] for t in v]), {"where": astx.loc(f)})
+    return n
